@@ -227,3 +227,7 @@ func c12History(capN, steps int) {
 
 func VerifHarness_C12_Hist3() { c12History(2, 3) }
 func VerifHarness_C12_Hist4() { c12History(2, 4) }
+
+// "a lookup returns the value most recently stored under that key" at the search-cache layer:
+// the stored list is the cache's own (the caller goes on using its slice), also under churn
+func VerifHarness_C12_StoredCopy() { VerifHarness_C05_SmallCache() }
